@@ -167,6 +167,9 @@ class EvalStream(Stream):
             mk("custom:2", ["t", "add", [["t", "c_int", []], ["t", "c_int", []]]]),
             mk("custom:2", ["t", "minus", [["t", "c_int", []], ["t", "c_int", []]]]),
             mk("custom:4", ["t", "open", []]),
+            # accepted by an `expr` wildcard whitelist, then compile() fails before anything is evaluated
+            mk("custom:4", ["or", [["n", "globals"], ["n", "a"], ["t", "await", [["n", "b"]]]]]),
+            mk("custom:4", ["or", [["n", "c"], ["t", "yield", [["n", "b"]]]]]),
             {"evaluator": "completion", "text": "a and", "env": env, "kind": "malformed"},
         ]
 
@@ -493,8 +496,8 @@ META = {
         "no Call/Lambda/comprehension/NamedExpr/Await/Yield is whitelisted by either of cylc's evaluators. Tied to util.py "
         "by in-Coq comparison on generated expressions with side-effect canaries."),
     "level_note": (
-        "hand model; CPython's parser/compiler/eval trusted; evaluation semantics modelled only for the BoolOp/Name fragment "
-        "(other whitelists: accept/reject only); `__debug__` evaluates to True without being supplied (known finding, "
+        "hand model; CPython's parser/compiler/eval trusted; evaluation semantics modelled only for trees inside the BoolOp/Name "
+        "fragment (trees with other whitelisted nodes: accept/reject only); `__debug__` evaluates to True without being supplied (known finding, "
         "modelled faithfully and excluded by hypothesis)"),
     "technique": "Coq proof (induction over rose trees) + generated whitelist (GEN) + in-Coq differential correspondence + canary oracle",
     "design_ref": "5/C24",
